@@ -597,6 +597,59 @@ def literal_bindings_do_not_outlive_the_call(col):
                 break
 
 
+def deep_shadowing(col):
+    """shadowing, Spec(scope=) overriding and Ref resolution do not depend on how far below the binder the reader sits: chains of up
+    to 150 steps after the inner binder, up to 60 levels of dict / list nesting, Ref recursions up to 60 levels deep that re-bind a
+    counter at every level"""
+    def check(desc, depth, spec, want, target=None, **kw):
+        got = call(G, {'v': 'tv'} if target is None else target, spec, **kw)
+        col.case(('deep-shadowing', desc, depth), True)
+        col.count('deep_shadowing_cases')
+        col.count('reader_observations')
+        if not got.ok or got.value != want:
+            col.violation('C07/deep-reader-sees-the-wrong-binding:%s' % desc,
+                          '%s, reader %d levels / steps below the inner binder: %r, expected %r' % (desc, depth, short(got, 300), want), None)
+            return False
+        return True
+    for depth in (1, 5, 20, 40, 62, 63, 64, 65, 66, 70, 100, 150):
+        pad = (T,) * depth
+        ok = check('chain', depth, (S(x='outer'), (S(x='inner'),) + pad + (S.x,)), 'inner')
+        ok = check('chain-three-levels', depth, (S(x='one'), (S(x='two'), (S(x='three'),) + pad + ({'x': S.x},))), {'x': 'three'}) and ok
+        ok = check('scope-kwarg-shadowed', depth, (S(x='inner'),) + pad + (S.x,), 'inner', scope={'x': 'from-caller'}) and ok
+        ok = check('spec-scope-override', depth, (S(x='outer'), Spec((T,) * depth + (S.x,), scope={'x': 'override'})), 'override') and ok
+        ok = check('A-binder', depth, (S(x='outer'), ('v', A.x) + pad + (S.x,)), 'tv') and ok
+        ok = check('outer-still-visible-after-the-inner-chain', depth, (S(x='outer'), ((S(x='inner'),) + pad + (S.x,)), S.x), 'outer') and ok
+        if not ok:
+            break
+    for depth in (1, 10, 30, 31, 32, 33, 40, 60):
+        def nest(inner, depth=depth):
+            sp = inner
+            for i in range(depth):
+                sp = ({'k': sp}, 'k') if i % 2 else (Val([1]), [sp], T[0])
+            return sp
+        got = call(G, [1], (S(x='outer'), (S(x='inner'), nest(S.x))))
+        col.case(('deep-shadowing', 'containers', depth), True)
+        col.count('deep_shadowing_cases')
+        col.count('reader_observations')
+        if not got.ok or got.value != 'inner':
+            col.violation('C07/deep-reader-sees-the-wrong-binding:containers', 'reader below %d levels of dict / list specs: %r, expected inner' % (depth, short(got, 200)), None)
+            break
+    for depth in (2, 5, 9, 10, 11, 12, 20, 40, 60):
+        # a recursion that re-binds `n` at every level (n - 1) and reads it back: at every level the NEAREST binding is the one read,
+        # and every level resolves Ref('down') to the one definition
+        seen = []
+        spec = (S(n=Val(depth), label=Val('top')),
+                Ref('down', (S(n=S.n - 1), S.n, lambda v: seen.append(v) or v, Coalesce(Match(0), Ref('down')))))
+        got = call(G, 'start', spec)
+        col.case(('deep-shadowing', 'ref-recursion', depth), True)
+        col.count('deep_shadowing_cases')
+        col.count('reader_observations')
+        if not got.ok or got.value != 0 or seen != list(range(depth - 1, -1, -1)):
+            col.violation('C07/deep-reader-sees-the-wrong-binding:ref-recursion', 'Ref recursion re-binding a counter, %d levels: %r, counter values read %s, expected 0 and %d..0'
+                          % (depth, short(got, 300), short(seen, 200), depth - 1), None)
+            break
+
+
 def matchdict_two_keys(col, rng):
     """a Match-dict key passes its bindings to its own value spec only: constant key + binding key, both target orders"""
     for binder_name, binder in (('A.k', A.k), ('S(k=)', S(k=Val('BOUND'))), ('Required(A.k)', Required(A.k)),
@@ -810,6 +863,7 @@ def run(ctx):
             spec_glom_entry(col)
             matchdict_two_keys(col, rng)
             literal_bindings_do_not_outlive_the_call(col)
+            deep_shadowing(col)
         for i in range(ctx.n(6000, 40000)):
             one_case(col, rng, tracer)
         tracer.uninstall()
